@@ -71,15 +71,18 @@ class Model_cfit(Model):
         data, weight = self.get_weight_data(data, weight)
         sw = tf.reduce_sum(weight)
         weight_norm = self.sum_resolution(weight)
-        sig_data = self.sum_resolution(weight * self.sig(data)) / weight_norm
-        bg_data = self.sum_resolution(weight * self.bg(data)) / weight_norm
+        dom_weight = tf.where(
+            weight_norm == 0, tf.ones_like(weight_norm), weight_norm
+        )
+        sig_data = self.sum_resolution(weight * self.sig(data)) / dom_weight
+        bg_data = self.sum_resolution(weight * self.bg(data)) / dom_weight
         if mc_weight is None:
             int_mc = tf.reduce_mean(self.sig(mcdata))
             int_bg = tf.reduce_mean(self.bg(mcdata))
         else:
             int_mc = tf.reduce_sum(mc_weight * self.sig(mcdata))
             int_bg = tf.reduce_sum(mc_weight * self.bg(mcdata))
-        ln_data = tf.math.log(
+        ln_data = clip_log(
             (1 - self.w_bkg) * sig_data / int_mc
             + self.w_bkg * bg_data / int_bg
         )
